@@ -24,9 +24,9 @@ const char *vprop_class_names[V_NCLASS] = {
   "misaligned", "const_n", "target_avx", "target_sse", "target_mmx", "reduced_flags", "single_opcode",
   "var64", "exhaustive_pairs", "multi_insn_ge_5", "params",
   #ifdef C03_MODE
-  "trailing_guard", "leading_guard", "unmapped_row_gaps", "generated_c_path", NULL
+  "trailing_guard", "leading_guard", "unmapped_row_gaps", "generated_c_path", "negative_stride", "variable_classes_filled_to_limit", NULL
 #else
-  "saves_callee_regs", "sets_mxcsr", "uses_mmx_regs", NULL
+  "saves_callee_regs", "sets_mxcsr", "uses_mmx_regs", "(unused)", "negative_stride", "variable_classes_filled_to_limit", NULL
 #endif
 };
 
@@ -389,6 +389,7 @@ void vprop_case (VChoices *c, VResult *r)
     h = v_hash_bytes (h, &rc.n, sizeof rc.n);
     r->sub_evals++;
     if (rc.n > 0 && rc.m > 0) r->sub_nontrivial++;
+    { int q; for (q = 0; q < ps.nvars; q++) if (rc.a[q].neg_stride && rc.m > 1) r->classes |= 1u << 24; }
     if (rc.n > 0 && rc.m > 0) {
       if (rc.n < 8) r->classes |= 1u << 0; else if (rc.n <= 64) r->classes |= 1u << 1; else r->classes |= 1u << 2;
     }
@@ -434,4 +435,5 @@ void vprop_case (VChoices *c, VResult *r)
   if (pairs) r->classes |= 1u << 17;
   if (ps.nins >= 5) r->classes |= 1u << 18;
   if (ps.count[VK_PARAM]) r->classes |= 1u << 19;
+  if (ps.saturated) r->classes |= 1u << 25;
 }
